@@ -80,7 +80,32 @@ def int_rows(draw, max_c=6):
     flat = [v for r in rows for v in r]
     ok = [d for d in DTYPES if fits(flat, d)]
     dtype = draw(st.sampled_from(ok)) if ok else "int64"
-    return {"rows": rows, "c": c, "dtype": dtype}
+    return {"rows": rows, "c": c, "dtype": dtype, "layout": draw(st.sampled_from(LAYOUTS))}
+
+
+LAYOUTS = ["C", "C", "F", "T", "strided", "readonly", "list"]
+
+
+def with_layout(data, layout):
+    """the same rows in another memory layout / container: equal rows must stay equal whatever the strides are"""
+    if layout == "F":
+        return np.asfortranarray(data)
+    if layout == "T":
+        return np.ascontiguousarray(data.T).T  # column-major memory reached through a transpose
+    if layout == "strided":
+        big = np.zeros((len(data) * 2, data.shape[1] * 2), dtype=data.dtype) if data.ndim == 2 else np.zeros(len(data) * 2, dtype=data.dtype)
+        if data.ndim == 2:
+            big[::2, ::2] = data
+            return big[::2, ::2]
+        big[::2] = data
+        return big[::2]
+    if layout == "readonly":
+        out = data.copy()
+        out.flags.writeable = False
+        return out
+    if layout == "list":
+        return data.tolist() if len(data) else data
+    return data
 
 
 def _keys(h):
@@ -97,14 +122,15 @@ def _partition(list_of_index_arrays):
 def b_rows(case, ctx):
     rows = [tuple(r) for r in case["rows"]]
     c = case["c"]
-    data = np.array(case["rows"], dtype=case["dtype"]).reshape((-1, c))
+    data = with_layout(np.array(case["rows"], dtype=case["dtype"]).reshape((-1, c)), case.get("layout", "C"))
     n = len(rows)
     classes = OrderedDict()
     for i, r in enumerate(rows):
         classes.setdefault(r, []).append(i)
     ctx.note(
         nontrivial=(len(classes) >= 2 and any(len(v) >= 2 for v in classes.values())),
-        cls=mag_class([v for r in rows for v in r], c) + ":" + ("void" if c > 4 else "pack"),
+        cls=[mag_class([v for r in rows for v in r], c) + ":" + ("void" if c > 4 else "pack"), "rows:layout=" + case.get("layout", "C")]
+        + (["rows:column_major_void_fallback"] if case.get("layout") in ("F", "T") and n >= 2 and (c > 4 or "pack_limit" in mag_class([v for r in rows for v in r], c) and ">=" in mag_class([v for r in rows for v in r], c)) else []),
     )
     ref_part = Counter(frozenset(v) for v in classes.values())
 
@@ -131,7 +157,7 @@ def b_rows(case, ctx):
         check(len(u) == len(classes), sig + "|count", f"{len(u)} unique, expected {len(classes)}")
         if n:
             check((u >= 0).all() and (u < n).all(), sig + "|index_range", str(u))
-            check(np.array_equal(data[u][inv], data), sig + "|reconstruct", "data[unique][inverse] != data")
+            check(np.array_equal(np.asarray(data)[u][inv], np.asarray(data)), sig + "|reconstruct", "data[unique][inverse] != data")
         firsts = sorted(v[0] for v in classes.values())
         check(sorted(int(i) for i in u) == firsts, sig + "|first_occurrence", f"{u.tolist()} vs firsts {firsts}")
         if keep:
@@ -154,11 +180,15 @@ def b_rows(case, ctx):
 @body("C06.boolean_rows")
 def b_boolean_rows(case, ctx):
     c = case["c"]
-    a = np.array(case["a"], dtype=np.int64).reshape((-1, c))
-    b = np.array(case["b"], dtype=np.int64).reshape((-1, c))
+    a = with_layout(np.array(case["a"], dtype=case.get("dtype_a", "int64")).reshape((-1, c)), case.get("layout_a", "C"))
+    b = with_layout(np.array(case["b"], dtype=case.get("dtype_b", "int64")).reshape((-1, c)), case.get("layout_b", "C"))
+    if isinstance(a, list) or isinstance(b, list):
+        a, b = np.asarray(a, dtype=case.get("dtype_a", "int64")).reshape((-1, c)), np.asarray(b, dtype=case.get("dtype_b", "int64")).reshape((-1, c))
     sa = {tuple(r) for r in case["a"]}
     sb = {tuple(r) for r in case["b"]}
-    ctx.note(nontrivial=bool(sa & sb) and bool(sa - sb), cls=f"boolean_rows:c{min(c, 5)}")
+    mixed = case.get("dtype_a", "int64") != case.get("dtype_b", "int64")
+    ctx.note(nontrivial=bool(sa & sb) and bool(sa - sb), cls=[f"boolean_rows:c{min(c, 5)}"] + (["boolean_rows:mixed_dtypes"] if mixed else [])
+             + (["boolean_rows:b_exceeds_dtype_of_a"] if mixed and len(case["b"]) and not fits([v for r in case["b"] for v in r], case.get("dtype_a", "int64")) else []))
     got = grouping.boolean_rows(a, b, operation=np.intersect1d)
     check({tuple(int(v) for v in r) for r in got} == (sa & sb) and len(got) == len(sa & sb), "C06.boolean_rows|intersect", lambda: f"{got.tolist()} vs {sorted(sa & sb)}")
     got = grouping.boolean_rows(a, b, operation=np.setdiff1d)
@@ -296,7 +326,9 @@ def b_float_rows(case, ctx):
     delta = case["delta"]
     K = np.array(ks, dtype=np.int64).reshape((-1, c))
     D = np.array(delta, dtype=np.float64).reshape((-1, c))
-    data = (K + D) * (10.0 ** (-d))
+    data = with_layout((K + D) * (10.0 ** (-d)), case.get("layout", "C"))
+    if isinstance(data, list):
+        data = np.asarray(data, dtype=np.float64).reshape((-1, c))
     # the documented rule: round(data * 10**digits - 1e-6); by construction |D| <= 0.3 so this is K
     q = np.round(data * 10**d - 1e-6).astype(np.int64)
     if not np.array_equal(q, K):
@@ -402,7 +434,12 @@ def boolean_rows_case(draw):
     elem = st.one_of(st.integers(-3, 3), st.sampled_from(BOUNDARY))
     pool = draw(st.lists(st.lists(elem, min_size=c, max_size=c), min_size=1, max_size=6))
     pick = st.lists(st.sampled_from(pool), min_size=0, max_size=8)
-    return {"c": c, "a": draw(pick), "b": draw(pick)}
+    a, b = draw(pick), draw(pick)
+    # each operand in any integer dtype that holds its own values (the narrower one must not decide for both)
+    signed = ["int8", "int16", "int32", "int64"]
+    da = draw(st.sampled_from([d for d in signed if fits([v for r in a for v in r], d)] or ["int64"]))
+    db = draw(st.sampled_from([d for d in signed if fits([v for r in b for v in r], d)] or ["int64"]))
+    return {"c": c, "a": a, "b": b, "dtype_a": da, "dtype_b": db, "layout_a": draw(st.sampled_from(LAYOUTS[:6])), "layout_b": draw(st.sampled_from(LAYOUTS[:6]))}
 
 
 @st.composite
@@ -420,7 +457,7 @@ def float_rows_case(draw):
             max_size=n,
         )
     )
-    return {"c": c, "digits": d, "k": ks, "delta": delta}
+    return {"c": c, "digits": d, "k": ks, "delta": delta, "layout": draw(st.sampled_from(LAYOUTS[:6]))}
 
 
 @st.composite
